@@ -284,7 +284,22 @@ theorem attemptAddition_congr {g : Bool} (r : Nat) {s s' : State} (h : Rel g s s
     (m' := { s'.obj r with toAdd := some (toAddOf (s'.obj r) s'.ctx) }) (by rw [← hn, eObj_eq hm]; rfl) ha hmv
   unfold attemptAddition
   simp only []
-  rw [← hc.1, ← hn, ← h.atoms]
+  rw [← hn]
+  by_cases hemp : (toAddOf (s.obj r) s.ctx).isEmpty = true
+  · simp only [hemp, if_true]
+    refine ⟨trivial, ?_⟩
+    -- the early return keeps atoms and context, and stores the (empty) species on the object like `addStart`
+    refine ⟨h.atoms, h.inp, ?_, h.ctx⟩
+    have := ha.heap
+    unfold addStart at this
+    simp only [] at this
+    rw [← hn] at this
+    exact this
+  simp only [hemp, Bool.false_eq_true, if_false]
+  rw [← h.atoms]
+  have hc1 := hc.1
+  rw [← hn] at hc1
+  rw [← hc1]
   split
   · exact ⟨rfl, hc.2⟩
   · exact ⟨rfl, congrArg (fun a => AtomsS.delete a _) hc.2.atoms, hc.2.inp, hc.2.heap, hc.2.ctx⟩
@@ -936,7 +951,9 @@ theorem attemptAddition_at (r : Nat) (s : State) :
   have hh : (attemptAddition r s).2.heap = (s.setObj r { s.obj r with toAdd := some (toAddOf (s.obj r) s.ctx) }).heap := by
     unfold attemptAddition
     simp only []
-    split <;> rfl
+    split
+    · rfl
+    · split <;> rfl
   obtain ⟨a1, a2⟩ := setObj_at (AgreeOff.refl r s) { s.obj r with toAdd := some (toAddOf (s.obj r) s.ctx) }
   have e : (attemptAddition r s).2.obj r = (s.setObj r { s.obj r with toAdd := some (toAddOf (s.obj r) s.ctx) }).obj r := by
     simp only [State.obj, hh]
